@@ -182,15 +182,28 @@ def fresh_result(ops):
     return digest(r)
 
 
+def run_chunk(seqs):
+    """executed inside a fresh process: a chunk of sequences one after the other (one set of objects per sequence, the
+    library's default solver instances shared by the whole chunk); digests of every call"""
+    import darsia as d
+
+    out = []
+    for seq in seqs:
+        objs = Objs(d, with_ws=needs_ws(seq))
+        out.append([digest(execute(d, objs, op)) for op in seq])
+    return out
+
+
 def _zygote(conn, nproc):
-    """pristine post-import interpreter: serves batches; every case runs in its own fork of this process"""
+    """pristine post-import interpreter: serves batches; every task runs in its own fork of this process"""
     ctx = mp.get_context("fork")
     while True:
-        batch = conn.recv()
-        if batch is None:
+        msg = conn.recv()
+        if msg is None:
             break
+        kind, batch = msg
         with ctx.Pool(processes=nproc, maxtasksperchild=1) as pool:
-            conn.send(pool.map(fresh_result, batch, chunksize=1))
+            conn.send(pool.map(fresh_result if kind == "fresh" else run_chunk, batch, chunksize=1))
 
 
 WORKER = "import json,sys; from vt.checks.c16 import fresh_result; print('RESULT ' + fresh_result(json.loads(sys.stdin.read())))"
@@ -310,8 +323,10 @@ def slow(op):
 
 
 def sequences(ctx):
-    """all sequences of the tier: <= 2 (quick) / <= 3 (thorough) over the whole alphabet, <= 3 / <= 4 inside every group of
-    operations that share an object; in the quick tier sequences with several split-Bregman calls are limited to length 2"""
+    """quick: all sequences of length <= 2 over the whole alphabet, a seeded sample of 1500 triples without split-Bregman calls,
+    all sequences of length <= 3 inside every group of operations that share an object.
+    thorough: all of length <= 3 over the whole alphabet (at most one numba-compiling split-Bregman call per triple), all of
+    length <= 4 inside every group (at most two such calls), distance objects on up to three successive pairs."""
     alphabet = [o for g in GROUPS.values() for o in g]
     seen = set()
     out = []
@@ -322,15 +337,21 @@ def sequences(ctx):
             seen.add(key)
             out.append(list(seq))
 
-    budget = ctx.pick(1, 2)
-    for k in range(1, ctx.pick(2, 3) + 1):
+    for k in (1, 2):
         for seq in itertools.product(alphabet, repeat=k):
-            if sum(map(slow, seq)) <= (2 if k <= 2 else budget):
+            emit(seq)
+    if ctx.big:
+        for seq in itertools.product(alphabet, repeat=3):
+            if sum(map(slow, seq)) <= 1:
                 emit(seq)
+    else:
+        fast = [o for o in alphabet if not slow(o)]
+        for _ in range(1500):
+            emit([ctx.rng.choice(fast) for _ in range(3)])
     for name, g in GROUPS.items():
-        for k in range(1, ctx.pick(3, 4) + 1):
+        for k in range(3, ctx.pick(3, 4) + 1):
             for seq in itertools.product(g, repeat=k):
-                if k <= 2 or sum(map(slow, seq)) <= (budget if k == 3 else 1):
+                if sum(map(slow, seq)) <= (1 if k == 3 and not ctx.big else 2):
                     emit(seq)
     if ctx.big:
         for k in range(1, 4):
@@ -398,12 +419,23 @@ def _run(ctx, d, zyg):
     ctx.cov["sequences"] = len(seqs)
     ctx.log(f"{len(seqs)} sequences")
 
-    # ---- run every sequence in THIS process (one set of objects per sequence; the default instances are shared by all) ----
-    results = []  # per sequence: list of digests
+    # ---- run the sequences: 14 long-lived processes, each runs its share of the sequences one after the other
+    # (one set of objects per sequence; the library's default solver instances are shared by everything in the process) ----
+    nchunk = 14
+    order = list(range(len(seqs)))
+    ctx.rng.shuffle(order)
+    chunks = [[seqs[i] for i in order[c::nchunk]] for c in range(nchunk)]
+    zyg.send(("chunk", chunks))
+    chunk_res = zyg.recv()
+    results = [None] * len(seqs)
+    before = {}  # sequence index -> indices of the sequences run earlier in the same process
+    for c in range(nchunk):
+        for pos, (i, r) in enumerate(zip(order[c::nchunk], chunk_res[c])):
+            results[i] = r
+            before[i] = order[c::nchunk][:pos]
     for seq in seqs:
-        objs = Objs(d, with_ws=needs_ws(seq))
-        results.append([digest(execute(d, objs, op)) for op in seq])
         ctx.count(("seq", json.dumps(seq, sort_keys=True)), nontrivial=len(seq) > 1)
+    ctx.log("sequences executed")
 
     # ---- fresh-process references: settings-only prefix + the call ----
     keys = {}
@@ -414,7 +446,7 @@ def _run(ctx, d, zyg):
             ref_ops = [s for o in seq[:n] for s in setting_part(o)] + [op]
             keys.setdefault(json.dumps(ref_ops, sort_keys=True), ref_ops)
     klist = list(keys)
-    zyg.send([keys[k] for k in klist])
+    zyg.send(("fresh", [keys[k] for k in klist]))
     ref = dict(zip(klist, zyg.recv()))
     ctx.cov["fresh_process_references"] = len(klist)
     ctx.log(f"{len(klist)} fresh-process references computed")
@@ -444,7 +476,22 @@ def _run(ctx, d, zyg):
     # ---- oracle: every call of every sequence against its fresh-process reference ----
     n_cmp = 0
     impl_eq = []
-    for seq, res in zip(seqs, results):
+    def default_kind(o):
+        if o["op"] == "h1" and o["solver"] == "d":
+            return "h1"
+        if (o["op"] == "sb" and o["solver"] == "d") or (o["op"] == "tvd" and o["method"] == "heterogeneous bregman"):
+            return "sb"
+        return None
+
+    def process_prefix(si, op):
+        """earlier sequences of the same process that used the same default solver instance (first and last of them)"""
+        k = default_kind(op)
+        if k is None:
+            return []
+        hits = [j for j in before[si] if any(default_kind(o) == k for o in seqs[j])]
+        return [seqs[j] for j in dict.fromkeys(hits[:1] + hits[-1:])]
+
+    for si, (seq, res) in enumerate(zip(seqs, results)):
         flags = []
         for n, (op, r) in enumerate(zip(seq, res)):
             if op["op"] in ("ju", "mu"):
@@ -457,7 +504,7 @@ def _run(ctx, d, zyg):
             if r != want:
                 ctx.fail(signature(op, prev_class(seq, n)),
                          f"call {n} of the sequence returned {r}; the same call issued first in a fresh process (after the parameter settings only) returns {want}",
-                         {"sequence": seq, "call": n, "in_sequence": r, "fresh_process": want, "reference_ops": ref_ops})
+                         {"process_prefix": process_prefix(si, op), "sequence": seq, "call": n, "in_sequence": r, "fresh_process": want, "reference_ops": ref_ops})
         impl_eq.append(flags)
     ctx.cov["compared_calls"] = n_cmp
 
@@ -500,7 +547,8 @@ def _run(ctx, d, zyg):
         ctx.mark("CORR-BROKEN", {"correspondence": "stateful-sequences", "sequence": first[0], "impl_equal_to_fresh": first[1], "model": first[2], "n_diffs": ndiff})
         ctx.log(f"correspondence stateful-sequences: {ndiff} disagreements, e.g. {json.dumps(first[0])[:300]} impl={first[1]} model={first[2][:200]}")
 
-    ctx.cov["rule"] = ("sequences: all of length <= 2 (quick) / <= 3 (thorough) over the 24-operation alphabet, all of length <= 3 / <= 4 inside each "
+    ctx.cov["rule"] = ("sequences: quick = all of length <= 2 over the 24-operation alphabet + 1500 sampled triples + all of length <= 3 inside each group; thorough = all of "
+                       "length <= 3 over the alphabet (at most one numba-compiling split-Bregman call per triple) + all of length <= 4 inside each "
                        "group sharing an object (default H1 solver, default split-Bregman solver, one Jacobi object, MG objects, Anderson objects); "
                        "thorough adds distance objects (Newton/Bregman, direct/AMG) on successive pairs; EVERY call of every sequence is compared with "
                        "its fresh-process reference; distinct = sequence")
@@ -513,6 +561,11 @@ def replay(data_):
 
     r = data_.get("replay", data_)
     seq, n = r["sequence"], r["call"]
+    for pre in r.get("process_prefix", []):  # earlier sequences of the same process (shared default solver instances)
+        objs = Objs(d, with_ws=needs_ws(pre))
+        for op in pre:
+            execute(d, objs, op)
+        print(f"earlier in the same process: {json.dumps(pre)}")
     objs = Objs(d, with_ws=needs_ws(seq))
     got = [digest(execute(d, objs, op)) for op in seq][n]
     want = subprocess_result(r["reference_ops"])
